@@ -235,6 +235,30 @@ def gc_oracles_from_events(events):
     return out
 
 
+def layouts_from_events(evs, layout0):
+    """per handler call: the layout (sorted split keys) at every served scan and at every ResolveLock attempt after it"""
+    cur = set(layout0 or [])
+    calls, cc = [], None
+    lay = lambda: ",".join(sorted(cur, key=kb)) or "."
+    for ev in evs:
+        t = ev["t"]
+        if t == "split":
+            cur.add(ev["s"])
+        elif t == "merge":
+            cur.discard(ev["s"])
+        elif t == "begin":
+            cc = {"s": ev.get("s", "-"), "e": ev.get("e", "-"), "iters": []}
+        elif t == "end":
+            calls.append(cc); cc = None
+        elif cc is None:
+            continue
+        elif t == "scan":
+            cc["iters"].append([lay()])
+        elif t in ("resolve", "resolveerr") and cc["iters"]:
+            cc["iters"][-1].append(lay())
+    return calls
+
+
 def do_gc(cx, res):
     c = res["case"]
     uni = c.get("backend") == "unistore"
@@ -498,6 +522,24 @@ def do_gc(cx, res):
                     cx.mismatch(res, "store after the pass vs RangeTask.gc_resolve_range", [x for x, y in zip(pfin, mfin) if x != y][:4], [y for x, y in zip(pfin, mfin) if x != y][:4])
                 cx.stats["gc:trace-validated"] += 1
             cx.ask(qid + "t", "\t".join(["gc", qid + "t", "400", hexn(sp), str(limit), store, subs]), cb_gc)
+            # (d) the regions are PREDICTED by the model from the layouts in force (ModelLayout) and compared with the observed ones
+            lcalls = layouts_from_events(evs, res.get("layout0"))
+            if len(lcalls) == len(calls) and all(len(lc["iters"]) == len(os_) for lc, (_, _, os_, _) in zip(lcalls, calls)):
+                lsubs = " ".join("%s~%s~%s" % (lc["s"], lc["e"], ";".join("/".join(it) for it in lc["iters"])) for lc in lcalls)
+                obs = " # ".join(";".join(os_) for _, _, os_, _ in calls)
+
+                def cb_gcl(f):
+                    if f[0] != "ok":
+                        cx.mismatch(res, "gc_resolve_range_l on the observed layouts returned " + " ".join(f)[:300], obs, f)
+                        return
+                    if f[3] != obs:
+                        cx.mismatch(res, "regions serving ScanLock / ResolveLock vs the regions RangeTask.ModelLayout predicts from the layouts", obs, f[3])
+                        return
+                    if f[1] != impl_tr:
+                        cx.mismatch(res, "ScanLock trace vs RangeTask.gc_resolve_range_l", impl_tr, f[1])
+                        return
+                    cx.stats["gc:regions-predicted-from-layouts"] += 1
+                cx.ask(qid + "l", "\t".join(["gcl", qid + "l", "400", hexn(sp), str(limit), store, lsubs]), cb_gcl)
 
 
 def do_del(cx, res):
